@@ -17,8 +17,8 @@ func (c *Ctx) kindUpdateIndex() *siteKind {
 
 func (c *Ctx) kindPut(key string) *siteKind {
 	return newKind("put:"+key, func(call ssa.CallInstruction) bool {
-		k, ok := c.cachePutKey(call)
-		return ok && (key == "" || k == key)
+		ks := c.cachePutKeys(call)
+		return len(ks) > 0 && (key == "" || hasKey(ks, key))
 	})
 }
 
